@@ -88,6 +88,13 @@ Theorem C07_repair_makes_local_version v : ends_plus v = true -> exists u, v ++ 
 Proof. exact (repaired_form v). Qed.
 Print Assumptions C07_repair_makes_local_version.
 
+(* every variable the grammar accepts is defined once default_environment() supplies its 11 keys: evaluate() cannot fail with a
+   KeyError (nor, for a mapping whose only None is extra, with a None reaching a comparison) *)
+Theorem C07_no_keyerror s m defaults ov env : Marker s = MOk m -> detects_all defaults -> typed ov ->
+  effective_env defaults ov = Some env -> forall x, In x (sides_l m) -> side_value env x <> None.
+Proof. exact (no_keyerror s m defaults ov env). Qed.
+Print Assumptions C07_no_keyerror.
+
 (* 6. purity: the result depends on the marker and on the values of the variables that occur in it, nothing else *)
 Theorem C07_pure e1 e2 m :
   (forall n, In (SVar n) (sides_l m) -> lookup n e1 = lookup n e2) -> eval_markers e1 m = eval_markers e2 m.
